@@ -2747,11 +2747,15 @@ JANET_CORE_FN(os_open,
         }
     }
     /* If both read and write, fix up to O_RDWR */
+    /* Check the access mode that is actually requested: without :r and :w the file is opened for both. */
     if (read_flag && !write_flag) {
+        janet_sandbox_assert(JANET_SANDBOX_FS_READ);
         open_flags |= O_RDONLY;
     } else if (write_flag && !read_flag) {
+        janet_sandbox_assert(JANET_SANDBOX_FS_WRITE);
         open_flags |= O_WRONLY;
     } else {
+        janet_sandbox_assert(JANET_SANDBOX_FS_READ | JANET_SANDBOX_FS_WRITE);
         open_flags |= O_RDWR;
     }
 
